@@ -1,7 +1,7 @@
 SPECIFICATION Spec
 CONSTANTS
   MaxLen = 3
-  Symbols = {1, 3, 4, 9, 10, 11}
+  Symbols = {1, 3, 4, 9, 10}
   SegIMs = {1, 2, 3}
   TofIMs = {1, 2, 3}
   FrameIds = {1}
